@@ -164,11 +164,6 @@ impl RCase {
 struct NoProgressMarker;
 struct ScriptExhaustedMarker;
 
-/// Common bookkeeping for both generators.
-pub trait Served {
-    fn served(&self) -> &Vec<(Method, u64)>;
-}
-
 // ---------------------------------------------------------------------------------------
 // The simulated generator
 // ---------------------------------------------------------------------------------------
